@@ -202,6 +202,29 @@ func signing(r *mon.Run, c Case) {
 		if got, derr := verifyBytes(s.pkb, sigb, st); derr || !got {
 			r.Violate("sr25519/Verify/honest-rejected-after-round-trip", "", c)
 		}
+		// objects derived from the key (a key pair made for one signature, its secret and public key objects) are
+		// dropped and collected - finalizers included - while the objects they were derived from stay in use
+		if rep == 0 {
+			func() {
+				tmp := s.kp.SecretKey().KeyPair()
+				tsig, _ := tmp.Sign(&fixed{ent}, st)
+				tb, _ := tsig.MarshalBinary()
+				if !bytes.Equal(tb, want) {
+					r.Violate("sr25519/Sign/derived-key-pair", "a key pair derived from the secret key signs differently", c)
+				}
+				_ = tmp.PublicKey()
+			}()
+			mon.GCNow()
+			r.Hist("gc/after-dropping-derived-objects")
+			again, err := s.kp.Sign(&fixed{ent}, st)
+			ab, _ := again.MarshalBinary()
+			skb, _ := s.kp.SecretKey().MarshalBinary()
+			pkb2, _ := s.kp.SecretKey().PublicKey().MarshalBinary()
+			r.EvalN(3)
+			if err != nil || !bytes.Equal(ab, want) || !bytes.Equal(pkb2, s.pkb) || !s.kp.PublicKey().Verify(st, again) {
+				r.Violate("sr25519/key-changed-after-derived-objects-were-collected", fmt.Sprintf("after a derived key pair was dropped and collected: signature matches=%v, public key matches=%v (secret key now %x..)", bytes.Equal(ab, want), bytes.Equal(pkb2, s.pkb), skb[:8]), c)
+			}
+		}
 		// receivers decoded into repeatedly behave like fresh ones, whatever was done with them in between
 		if other, ok2 := mkSigner(r, c, mon.Bytes(rng, 32), false); ok2 {
 			var pk sr25519.PublicKey
@@ -525,12 +548,38 @@ func batch(r *mon.Run, c Case) {
 		return
 	}
 	var want []bool
+	type added struct {
+		pk  *sr25519.PublicKey
+		st  *sr25519.SigningTranscript
+		sig *sr25519.Signature
+	}
+	var earlier []added
 	round := func(n int, badRate int) {
 		for i := 0; i < n; i++ {
+			// now and then an EARLIER valid entry comes back: as an exact copy (valid) or with only its scalar altered
+			// (same key, same transcript, same R; invalid) - entries are judged one by one, not by what they share
+			if len(earlier) > 0 && rng.IntN(8) == 0 {
+				e := earlier[rng.IntN(len(earlier))]
+				sig := e.sig
+				kind := "repeat/exact-copy"
+				if badRate > 0 && rng.IntN(2) == 0 {
+					sb, _ := e.sig.MarshalBinary()
+					sb[32+rng.IntN(31)] ^= 1 << uint(rng.IntN(8))
+					if fs, err := sr25519.NewSignatureFromBytes(sb); err == nil {
+						sig, kind = fs, "repeat/same-R-other-s"
+					}
+				}
+				single := e.pk.Verify(e.st, sig)
+				r.Hist(fmt.Sprintf("batch-entry/%s/single=%v", kind, single))
+				want = append(want, single)
+				bv.Add(e.pk, e.st, sig)
+				continue
+			}
 			s := signers[rng.IntN(len(signers))]
 			st, _, _ := transcripts(rng, []byte("batch"), mon.Bytes(rng, msgLens[rng.IntN(len(msgLens))]), rng.IntN(4))
 			sig, _ := s.kp.Sign(&fixed{mon.Bytes(rng, 32)}, st)
 			pk := s.kp.PublicKey()
+			earlier = append(earlier, added{pk, st, sig})
 			kind := "valid"
 			if badRate > 0 && rng.IntN(badRate) == 0 {
 				sigb, _ := sig.MarshalBinary()
